@@ -167,6 +167,14 @@ CHECKS = {
             "clause restricted as the metric's definition requires.",
             "complete enumeration of a configuration alphabet with algebraic oracles and an environment "
             "(np.empty) seam"),
+    "C17": (MC, "DESIGN.md §5 C17",
+            "Every pair of small hierarchies (1..3 (4) cells, 1-2 (3) levels, every composition per level, <=2 labels "
+            "per level) x window x frame size (incl. one that puts boundaries off the frame grid) x transitive x beta "
+            "through tmeasure / lmeasure / evaluate, compared with brute-force O(n^3) triple counting in exact "
+            "rationals; parameter-rejection states must raise ValueError; scores in [0,1].",
+            "Model bound to the docstring example and the recorded fixtures; documented float frame rounding and "
+            "half-open window listed in the assumptions.",
+            "bounded exhaustive enumeration against an independent brute-force reference model (conformance)"),
 }
 
 NOT_YET = {}
